@@ -213,6 +213,14 @@ func (fr *frame) callStatic(x ssa.CallInstruction, callee *ssa.Function, args []
 				panic(unsupported(fmt.Sprintf("method %s passed to %s does not carry schema %s", fx.g.funcName(m), c2.Func, schema)))
 			}
 			fx.g.noteUse(fx.c, mc)
+			if fr.fparamStrong == nil {
+				fr.fparamStrong = map[string]string{}
+			}
+			if mc.Weak {
+				fr.fparamStrong[n] = "false"
+			} else {
+				fr.fparamStrong[n] = "true"
+			}
 		}
 	}
 	return fr.applyContract(x, callee, nil, c2, args, st)
@@ -259,6 +267,17 @@ func (fr *frame) applyContractEnv(x ssa.CallInstruction, c2 *Contract, name stri
 			env.vars[n] = TV{args[i+1], sig.Params().At(i).Type()}
 		}
 	}
+	env.strong = map[string]string{"self": "true"}
+	if c2.Weak {
+		env.strong["self"] = "false"
+	}
+	if strings.HasPrefix(name, "fparam ") {
+		env.strong["self"] = s.decl("strong!"+strings.TrimPrefix(name, "fparam "), SBool)
+	}
+	for n, t := range fr.fparamStrong {
+		env.strong[n] = t
+	}
+	fr.fparamStrong = nil
 	s.comment("call " + name)
 	for k, r := range c2.Requires {
 		label := r.Label
